@@ -276,7 +276,6 @@ func (a *action) badAccess(variant int, p []string, d virtual.Directory, pd virt
 	switch variant {
 	case 0:
 		via = "VirtualLookup"
-		*viaOut = via
 		var at virtual.Attributes
 		_, s := d.VirtualLookup(e.ctx, comp("f0"), maskCompare, &at)
 		refused, st = s != virtual.StatusOK, statusName(s)
